@@ -35,6 +35,7 @@ class StringConcatViolation:
     line_number: int
     column: int
     loop_type: str  # 'for' or 'while'
+    loop_line: int = 0  # line of the outermost enclosing loop (identifies the loop)
 
 
 # thailint: ignore-next-line[srp.violation] Uses small focused methods to reduce complexity
@@ -45,6 +46,7 @@ class PythonStringConcatAnalyzer:
         """Initialize the analyzer."""
         self._string_variables: set[str] = set()
         self._non_string_variables: set[str] = set()  # Lists, numbers, etc.
+        self._loop_lines: list[int] = []  # lines of the loops enclosing the node being visited
 
     def find_violations(self, tree: ast.AST) -> list[StringConcatViolation]:
         """Find all string concatenation in loop violations.
@@ -166,10 +168,16 @@ class PythonStringConcatAnalyzer:
             current_loop = in_loop
             current_reset_vars = reset_vars
 
+        if loop_type:
+            self._loop_lines.append(getattr(node, "lineno", 0))
+
         self._check_for_string_concat(node, violations, current_loop, current_reset_vars)
 
         for child in ast.iter_child_nodes(node):
             self._find_concat_in_loops(child, violations, current_loop, current_reset_vars)
+
+        if loop_type:
+            self._loop_lines.pop()
 
     def _get_loop_type(self, node: ast.AST) -> str | None:
         """Get the loop type if node is a loop, else None."""
@@ -304,6 +312,7 @@ class PythonStringConcatAnalyzer:
                 line_number=node.lineno,
                 column=node.col_offset,
                 loop_type=loop_type,
+                loop_line=self._loop_lines[0] if self._loop_lines else 0,
             )
         )
 
@@ -353,13 +362,13 @@ class PythonStringConcatAnalyzer:
         Returns:
             Deduplicated list with one violation per variable per loop
         """
-        # Group by variable name and keep first occurrence
-        seen: set[str] = set()
+        # Group by variable name and loop, keep first occurrence
+        seen: set[tuple[str, int]] = set()
         result: list[StringConcatViolation] = []
 
         for v in violations:
-            if v.variable_name not in seen:
-                seen.add(v.variable_name)
+            if (v.variable_name, v.loop_line) not in seen:
+                seen.add((v.variable_name, v.loop_line))
                 result.append(v)
 
         return result
